@@ -237,6 +237,77 @@ theorem C06_table_views_agree :
     Gen.StatusCodes.table.map (fun row => (row.1.toList.map Char.toNat, row.2.1.toList.map Char.toNat,
         row.2.2.1.toList.map Char.toNat, row.2.2.2)) = Gen.StatusCodes.tableCodes := by decide
 
+/-! ### the subject's identifier (`get_subject`): NameID, else the EncryptedID decrypted with the provider's own keys
+
+A subject that is identified only by an `<EncryptedID>` the provider cannot open is as good as no subject: no
+identity.  When it can be opened, the identifier reported is the NameID inside it. -/
+
+/-- Identity ⇒ every visible assertion whose subject is identified by an EncryptedID had it opened. -/
+theorem C06_encrypted_id_opened {cfg : Cfg} {env : Env} {r : Response} {o : Reported}
+    (h : process cfg env r = .identity o ∨ processFactory cfg env r = .identity o ∨ processRespFactory cfg env r = .identity o) :
+    ∀ a ∈ visible r, ∀ s, a.subject = some s → s.idSealed = true → s.idOpens = true := by
+  have hacc : ∃ rs, ∀ a ∈ visible r, ∃ v s s', checkAssertion cfg env rs v s a = .ok s' := by
+    rcases h with h | h | h
+    · exact C04.visible_accepted h
+    · exact C04.visible_accepted_factory h
+    · exact C04.visible_accepted_respfactory h
+  obtain ⟨rs, hacc⟩ := hacc
+  intro a ha s hs hsealed
+  obtain ⟨v, st, st', hchk⟩ := hacc a ha
+  obtain ⟨_, st1, st2, _, _, e3, _⟩ := checkAssertion_inv hchk
+  obtain ⟨s', hs', hid⟩ := getSubject_id e3
+  rw [hs] at hs'; cases hs'
+  cases hd : s.idOpens with
+  | true => rfl
+  | false =>
+    have herr : subjectId s = .error .idUndecryptable := by simp [subjectId, hsealed, hd]
+    rcases hid with ⟨h1, _⟩ | ⟨n, h1, _⟩ <;> rw [herr] at h1 <;> cases h1
+
+/-- The identifier reported for a single-assertion Response is the one `subjectId` reads: the NameID, else the content of
+    the (opened) EncryptedID, else none. -/
+theorem C06_reported_identifier {cfg : Cfg} {env : Env} {r : Response} {o : Reported} {a : Assertion}
+    (h : process cfg env r = .identity o) (hone : visible r = [a]) :
+    ∃ s, a.subject = some s ∧ subjectId s = .ok o.nameId ∧ o.nameId = s.nameId := by
+  obtain ⟨_, cf, _, rs, p, _, _, _, hv, _, _, _, a0, rest, s0, srest, hused, hauthn, ho⟩ := process_identity_inv h
+  obtain ⟨_, hp⟩ := verify_some_inv hv
+  obtain ⟨⟨st1, h1, h2⟩, _, _, hu, _, _⟩ := parseAssertion_inv hp
+  have hvis : decOf r ++ plainOf r = [a] := hone
+  have hfinal : ∃ v st0, st0.nameId = none ∧ checkAssertion cfg env rs v st0 a = .ok p.st := by
+    rcases List.append_eq_cons_iff.mp hvis with ⟨hd, hp'⟩ | ⟨as, hd, hp'⟩
+    · rw [hd] at h2; rw [hp'] at h1
+      unfold checkAll at h2; cases h2
+      unfold checkAll at h1
+      split at h1
+      · cases h1
+      next st' hchk =>
+        unfold checkAll at h1; cases h1
+        exact ⟨false, _, rfl, hchk⟩
+    · have has : as = [] ∧ plainOf r = [] := List.append_eq_nil_iff.mp hp'.symm
+      rw [hd, has.1] at h2; rw [has.2] at h1
+      unfold checkAll at h1; cases h1
+      unfold checkAll at h2
+      split at h2
+      · cases h2
+      next st' hchk =>
+        unfold checkAll at h2; cases h2
+        exact ⟨true, _, rfl, hchk⟩
+  obtain ⟨v, st0, hz, hchk⟩ := hfinal
+  obtain ⟨_, sa, sb, e1, e2, e3, _⟩ := checkAssertion_inv hchk
+  obtain ⟨_, _, _, _, _, hn1, _⟩ := authnStatementOk_inv e1
+  obtain ⟨_, _, _, _, hn2⟩ := conditionOk_facts e2
+  obtain ⟨s, hs, hid⟩ := getSubject_id e3
+  have key : subjectId s = .ok o.nameId := by
+    rw [ho]
+    simp only
+    rcases hid with ⟨h1', h2'⟩ | ⟨n, h1', h2'⟩
+    · rw [h2', hn2, hn1]; simpa [hz] using h1'
+    · rw [h2']; exact h1'
+  refine ⟨s, hs, key, ?_⟩
+  unfold subjectId at key
+  split at key
+  · cases key
+  · exact (Except.ok.inj key).symm
+
 /-! Non-vacuity -/
 private def okAssertion : Assertion :=
   { conditions := some { nooa := some 200, audiences := [["me"]] },
@@ -266,5 +337,15 @@ example : processFactory okCfg okEnv { okResp with inResponseTo := some "r0" } =
 example : processFactory okCfg okEnv failedResp = .rejected (.status (some "urn:oasis:names:tc:SAML:2.0:status:AuthnFailed")) := by decide
 example : processFactory okCfg okEnv { okResp with assertions := [encOtherIrt] } = .rejected .unsolicited := by decide
 example : processFactory okCfg okEnv { okResp with version := "1.1" } = .rejected .versionLow := by decide
+
+/-! Non-vacuity for the EncryptedID: opened → its content is reported (all three entry points); not opened → refused. -/
+private def encIdAssertion (opened : Bool) : Assertion :=
+  { okAssertion with subject := some { nameId := some "secret", idSealed := true, idOpens := opened, confs := [{ method := .bearer, data := some { nooa := some 200, recipient := some "u", irt := some "r1" } }] } }
+example : process okCfg okEnv { okResp with assertions := [encIdAssertion true] } = .identity
+  { nameId := some "secret", issuer := "", cameFrom := some "/x", notOnOrAfter := 200, sessionIndex := some "s", cached := true } := by decide
+example : process okCfg okEnv { okResp with assertions := [encIdAssertion false] } = .rejected .idUndecryptable := by decide
+example : processFactory okCfg okEnv { okResp with assertions := [encIdAssertion false] } = .rejected .idUndecryptable := by decide
+example : (processRespFactory okCfg okEnv { okResp with assertions := [{ encIdAssertion true with encrypted := true }] }).isIdentity = true := by decide
+example : processRespFactory okCfg okEnv { okResp with assertions := [{ encIdAssertion false with encrypted := true }] } = .rejected .idUndecryptable := by decide
 
 end C06
